@@ -184,6 +184,8 @@ def read_calls(c, case, members):
             ("contains-quad-foreign", lambda: (t0 + (foreign,)) in c), ("triples-context-unknown", lambda: list(c.triples((None, None, None), context=Graph(c.store, unknown)))),
             ("quads-restricted", lambda: list(c.quads((None, None, None, names[0])))), ("get_context", lambda: len(c.get_context(unknown))),
             ("triples-quad-foreign", lambda: list(c.triples((None, None, None, foreign)))),
+            ("triples-context-foreign", lambda: list(c.triples((None, None, None), context=foreign))),
+            ("triples-context-foreign-pattern", lambda: list(c.triples((t0[0], None, None), context=foreign))),
             ("triples_choices-foreign", lambda: list(c.triples_choices((None, [t0[1], URIRef("urn:other:p")], None), context=foreign))),
             ("triples_choices-view", lambda: list(c.triples_choices((t0[0], None, [t0[2]]), context=view))),
             ("triples_choices", lambda: list(c.triples_choices(([t0[0]], None, None)))),
